@@ -508,6 +508,31 @@ def _uniq(f):
             rd = n.get("referencedDecl", {})
             if rd.get("id") in ids:
                 rd["_u"] = ids[rd["id"]]
+    # single-assignment integer locals defined by pure index arithmetic: candidates for inlining into index
+    # polynomials and guard texts (hoisting `int idx = i*n_species+s;` must not change any verdict)
+    assigned = set()
+    for n in walk(f.body):
+        k = n.get("kind")
+        tgt = None
+        if k in ("BinaryOperator", "CompoundAssignOperator") and (k == "CompoundAssignOperator" or n.get("opcode") == "="):
+            tgt = strip(kids(n)[0])
+        elif k == "UnaryOperator" and n.get("opcode") in ("++", "--"):
+            tgt = strip(kids(n)[0])
+        if tgt is not None and tgt.get("kind") == "DeclRefExpr":
+            assigned.add(tgt.get("referencedDecl", {}).get("id"))
+    for n in walk(f.body):
+        if n.get("kind") == "VarDecl" and kids(n) and n.get("id") not in assigned and \
+                n.get("type", {}).get("qualType") in ("int", "size_t", "const int", "unsigned int", "long"):
+            e = strip(kids(n)[-1])
+            ok = e.get("kind") == "BinaryOperator" and all(
+                x.get("kind") in ("IntegerLiteral", "DeclRefExpr", "MemberExpr", "ImplicitCastExpr", "ParenExpr",
+                                  "CXXThisExpr") or (x.get("kind") == "BinaryOperator" and x.get("opcode") in ("+", "-", "*"))
+                for x in walk(e))
+            if ok:
+                INLINE[n.get("id")] = e
+
+
+INLINE = {}
 
 
 def uname(n):
